@@ -13,15 +13,17 @@ VARIABLES op, k, kind, persist, log, faulted, nfaults, result, mutated, pc
 vars == <<op, k, kind, persist, log, faulted, nfaults, result, mutated, pc>>
 
 Cleanup  == {"file.Close"}
+ReadOnly == {"readerat.ReadAt", "file.Read", "file.ReadAt", "file.Stat", "fs.Open", "fs.Stat"}     \* looking further at the input changes nothing: allowed after a fault
 Mutating == {"fs.OpenFile", "fs.Create", "file.Write", "file.WriteAt", "file.Truncate", "fs.Remove", "fs.Rename"}
-Kinds(d) == IF d = "file.Write" THEN {"error", "short", "short1", "short4"}       \* short counts: half, all but one, all but four bytes ELSE IF d = "readerat.ReadAt" THEN {"error", "eof"}       \* eof: short count + io.EOF (file truncated underneath)
+Kinds(d) == IF d = "file.Write" THEN {"error", "short", "short1", "short4"}       \* short counts: half, all but one, all but four bytes
+            ELSE IF d = "readerat.ReadAt" THEN {"error", "eof", "eof1", "eof0"}                       \* eof: short count + io.EOF (file truncated underneath)
             ELSE IF d = "file.Read" THEN {"error", "partial-error", "partial"} ELSE {"error"}
 (* partial-error: some of the requested bytes arrive together with an error; partial: a short count WITHOUT an error, which *)
 (* is not a failure under the io.Reader contract - the operation has to read on and either succeed with the whole value     *)
 (* or report an error, never succeed with the part (Benign below).                                                           *)
 Benign == {"partial"}
 
-Init == /\ op \in DOMAIN Ops /\ k \in 0..Len(Ops[op]) /\ kind \in {"error", "short", "short1", "short4", "eof", "partial-error", "partial"}
+Init == /\ op \in DOMAIN Ops /\ k \in 0..Len(Ops[op]) /\ kind \in {"error", "short", "short1", "short4", "eof", "eof1", "eof0", "partial-error", "partial"}
         /\ (k = 0 => kind = "error") /\ (k > 0 => kind \in Kinds(Ops[op][k]))
         /\ persist \in BOOLEAN /\ (k = 0 \/ kind # "error" => persist = FALSE) /\ nfaults = 0
         /\ log = <<>> /\ faulted = FALSE /\ result = "none" /\ mutated = FALSE /\ pc = "run"
@@ -34,9 +36,10 @@ Call == /\ pc = "run" /\ ~faulted /\ Len(log) < Len(Ops[op])
            /\ nfaults' = (IF Len(log) + 1 = k /\ kind \notin Benign THEN 1 ELSE 0)
            /\ mutated' = (mutated \/ (d \in Mutating /\ Len(log) + 1 # k))
         /\ UNCHANGED <<op, k, kind, persist, result, pc>>
-(* after the fault: only cleanup *)
-CleanupCall == /\ pc = "run" /\ faulted /\ \E d \in Cleanup : log' = Append(log, d)
-               /\ Len(log) < Len(Ops[op]) + 2
+(* after the fault: cleanup, and possibly more looking at the input (a parser that notes the failure and gives up a little later); *)
+(* nothing that signs or writes                                                                                                     *)
+CleanupCall == /\ pc = "run" /\ faulted /\ \E d \in Cleanup \cup ReadOnly : log' = Append(log, d)
+               /\ Len(log) < Len(Ops[op]) + 2 /\ Len(log) < k + 3      \* (bounded: up to three calls after the fault)
                /\ nfaults' = (IF persist THEN nfaults + 1 ELSE nfaults)      \* the cleanup call fails too
                /\ UNCHANGED <<op, k, kind, persist, faulted, result, mutated, pc>>
 Return == /\ pc = "run" /\ (faulted \/ Len(log) = Len(Ops[op]))
@@ -48,7 +51,7 @@ Spec == Init /\ [][Next]_vars
 (* ---- C15 ---- *)
 NeverSuccessAfterFault == (pc = "done" /\ faulted) => result \in {"error", "nil"}
 FaultFreeSucceeds      == (pc = "done" /\ ~faulted) => result = "ok"
-NothingAfterFault == \A i \in 1..Len(log) : (k > 0 /\ kind \notin Benign /\ i > k) => log[i] \in Cleanup
-MultiFaultStillReported == (pc = "done" /\ nfaults > 1) => result \in {"error", "nil"} /\ ~(\E i \in (k + 1)..Len(log) : log[i] \notin Cleanup)
+NothingAfterFault == \A i \in 1..Len(log) : (k > 0 /\ kind \notin Benign /\ i > k) => log[i] \in Cleanup \cup ReadOnly
+MultiFaultStillReported == (pc = "done" /\ nfaults > 1) => result \in {"error", "nil"} /\ ~(\E i \in (k + 1)..Len(log) : log[i] \notin Cleanup \cup ReadOnly)
 FailedSignWritesNothing == (k > 0 /\ Len(log) >= k /\ Ops[op][k] = "signer.Sign") => ~mutated
 =============================================================================
